@@ -120,7 +120,7 @@ def v1_fee(ctx):
 
 def _mint_ref(amount, dec, price, fee_bp, supply, aum_usdg):
     """real-valued GLP (18 decimals) minted for `amount` tokens at `fee_bp`, without the round-down steps"""
-    return amount * (10000 - fee_bp) / 10000 * 10**dec * price / P30 * supply / aum_usdg / 10**18
+    return amount * (10000 - fee_bp) / 10000 * 10**18 * price / P30 * supply / aum_usdg / 10**18  # USDG has 18 decimals whatever the token (Vault.adjustForDecimals)
 
 
 def v1_trade(ctx):
@@ -148,7 +148,7 @@ def v1_trade(ctx):
         ctx.check("buy_glp is rejected only for lack of balance", sand(type(e).__name__ in ("DemeterError", "AssertionError"), amount > wallet))
         return
     ctx.outcome("bought")
-    u0 = _floor(amount * 10**dec * price / P30)
+    u0 = _floor(amount * 10**18 * price / P30)
     # the fee is a step function of the (rounded-down) USDG amount: allow the rule's value at u0 and at its two integer neighbours
     refs = [vault_fee(initial, target, smax(u0 + k, 0), True) for k in (-1, 0, 1)]
     lo = _mint_ref(amount, dec, price, smax(*refs) + 1, supply, aum_usdg)
@@ -189,8 +189,8 @@ def v1_trade(ctx):
     # redeemed == glp x value per share / price x (1 - fee), within round-down steps and 1 bp
     u_sell = _floor(glp * 10**18 / supply * aum_usdg)
     refs_s = [vault_fee(initial, target, smax(u_sell + k, 0), False) for k in (-1, 0, 1)]
-    red_hi = glp * 10**18 / supply * aum_usdg / (price / P30) / 10**dec * (10000 - (smin(*refs_s) - 1)) / 10000
-    red_lo = (glp * 10**18 / supply * aum_usdg - 1) / (price / P30) / 10**dec * (10000 - (smax(*refs_s) + 1)) / 10000
+    red_hi = glp * 10**18 / supply * aum_usdg / (price / P30) / 10**18 * (10000 - (smin(*refs_s) - 1)) / 10000
+    red_lo = (glp * 10**18 / supply * aum_usdg - 1) / (price / P30) / 10**18 * (10000 - (smax(*refs_s) + 1)) / 10000
     items.append(("sell_glp: redeemed == GLP x value per share / price x (1 - fee), within the round-down steps and 1 bp of fee", sand(out <= red_hi * (1 + D("1e-20")), out >= red_lo * (1 - D("1e-20")))))
     ctx.check_all(items)
     ctx.check("CANARY round trip is free", out == amount)
